@@ -234,6 +234,12 @@ class Driver:
         elif op == 'dup':
             if sim.inflight:
                 sim.deliver(sim.inflight[n % len(sim.inflight)], keep=True)
+        elif op == 'redel':
+            # a message that was already delivered arrives once more, late
+            # (network-level duplicate)
+            if sim.delivered_log:
+                m = sim.delivered_log[-1 - (n % min(len(sim.delivered_log), 6))]
+                sim.deliver(dict(m), keep=True)
         elif op == 'drop':
             if sim.inflight:
                 sim.drop(sim.inflight[n % len(sim.inflight)])
